@@ -1,9 +1,10 @@
 //! `impl`: interprets the operation lines of the correspondence protocol against the real pelite,
 //! one answer line per operation line (DESIGN.md appendix B).
 mod util;
-mod ops_pure;
 #[macro_use]
 mod ops_img;
+mod ops_pure;
+// MOD-MARKER (add `mod ops_<m>;` above this line)
 
 use std::cell::RefCell;
 use std::io::{self, BufRead, Write};
@@ -19,21 +20,13 @@ fn dispatch(st: &mut State, line: &str) -> String {
 	let mut it = line.splitn(2, ' ');
 	let fam = it.next().unwrap_or("");
 	let rest = it.next().unwrap_or("");
-	match fam {
-		"strings" => ops_pure::strings(rest),
-		"relocs_raw" => ops_pure::relocs_raw(rest),
-		"relocs_build" => ops_pure::relocs_build(rest),
-		"img" => ops_img::img(st, rest),
-		"from_bytes" => ops_img::from_bytes(st, rest),
-		"hdr" => ops_img::hdr(st, rest),
-		"hdrw" => ops_img::hdrw(st, rest),
-		"r2f" | "f2r" | "r2v" | "v2r" => ops_img::addr(st, fam, rest),
-		"slice" => ops_img::slice(st, rest),
-		"read" => ops_img::read(st, rest),
-		"secbytes" => ops_img::secbytes(st, rest),
-		"byrva" | "byname" => ops_img::bysec(st, fam, rest),
-		_ => "bad-op".to_string(),
-	}
+	if fam == "img" { return ops_img::img(st, rest); }
+	// each module returns None for families that are not its own
+	None
+		.or_else(|| ops_pure::dispatch(st, fam, rest))
+		.or_else(|| ops_img::dispatch(st, fam, rest))
+		// DISPATCH-MARKER (add `.or_else(|| ops_<m>::dispatch(st, fam, rest))` above this line)
+		.unwrap_or_else(|| "bad-op".to_string())
 }
 
 fn main() {
